@@ -76,12 +76,14 @@ def main(tier: str, seed: int, replay: str | None = None) -> int:
             if nap >= 2 or ncons >= 1:
                 distinct.add(repr((h.to_json(), prog)))
             # (a) verified checker on the model's final state
-            if crow[1:4] == [1, 1, 1]:
+            if crow[1:4] == [1, 1, 1] and crow[4] > 0:
                 stats["checker_validated"] += 1
                 stats["groundings"] += crow[4]
                 stats["resolved_constraints_checked"] += crow[6]
             elif io == mo:
                 which = [w for w, f in zip(("steps", "constraints", "bounded"), crow[1:4]) if f != 1]
+                if crow[4] == 0:
+                    which.append("no instantiation within the reported bounds")
                 rep.violation(f"witness_{stats['accepted']}", {
                     "kind": "oracle (verified checker)",
                     "what": "accepted application without a witnessing instantiation: " + ",".join(which),
